@@ -233,7 +233,7 @@ class Folder:
             if isinstance(a, int):
                 return wrap(a, e["ty"])
             return a
-        if k == "addrof" or k == "use":
+        if k == "addrof" or k == "use" or (k == "constblock" and "a" in e):
             return self.eval(e["a"], env, depth + 1)
         if k == "block":
             env2 = dict(env)
